@@ -129,16 +129,20 @@ def _iter_sentinel_loop(st: ast.stmt) -> Optional[List[ast.stmt]]:
     return [loop]
 
 
-def _structure_early_returns(body: List[ast.stmt]) -> Optional[List[ast.stmt]]:
-    """a statement list in which bare `return`s end `if` branches (`if c: A; return` followed by REST) rewritten without
-    returns: `if c: A` / `else: REST`.  None when a return sits anywhere else (in a loop, try, with) or carries a value."""
+def _structure_early_returns(body: List[ast.stmt], target: Optional[ast.AST] = None) -> Optional[List[ast.stmt]]:
+    """a statement list in which `return`s end `if` branches (`if c: A; return` followed by REST) rewritten without
+    returns: `if c: A` / `else: REST`.  None when a return sits anywhere else (in a loop, try, with).  Returned values are
+    dropped when they are None; with a `target` every `return X` becomes `target = X` (falling off the end: `target = None`)."""
     def ends_in_return(stmts: List[ast.stmt]) -> bool:
         return bool(stmts) and isinstance(stmts[-1], ast.Return)
 
-    def rec(stmts: List[ast.stmt]) -> Optional[List[ast.stmt]]:
+    def rec(stmts: List[ast.stmt], top: bool = False) -> Optional[List[ast.stmt]]:
         out: List[ast.stmt] = []
         for i, st in enumerate(stmts):
             if isinstance(st, ast.Return):
+                if target is not None:
+                    out.append(ast.copy_location(ast.Assign([copy.deepcopy(target)], copy.deepcopy(st.value) if st.value is not None else ast.Constant(None)), st))
+                    return out
                 if st.value is not None and not (isinstance(st.value, ast.Constant) and st.value.value is None):
                     return None
                 return out              # what follows is dead
@@ -166,9 +170,15 @@ def _structure_early_returns(body: List[ast.stmt]) -> Optional[List[ast.stmt]]:
             if any(isinstance(x, ast.Return) for x in ast.walk(st)) and not isinstance(st, (ast.FunctionDef, ast.AsyncFunctionDef, ast.ClassDef)):
                 return None
             out.append(st)
+        if target is not None and top and not (stmts and isinstance(stmts[-1], ast.Raise)):
+            out.append(ast.Assign([copy.deepcopy(target)], ast.Constant(None)))
         return out
 
-    return rec(list(body))
+    res = rec(list(body), True)
+    if res is not None:
+        for x in res:
+            ast.fix_missing_locations(ast.copy_location(x, body[0]) if not hasattr(x, "lineno") else x)
+    return res
 
 
 def _has_return_inside(stmts: List[ast.stmt]) -> bool:
@@ -396,6 +406,126 @@ def _local_def_as_lambda(st: ast.stmt) -> Optional[List[ast.stmt]]:
     return [out]
 
 
+def _terminates(stmts: List[ast.stmt]) -> bool:
+    return bool(stmts) and isinstance(stmts[-1], (ast.Return, ast.Raise, ast.Break, ast.Continue))
+
+
+def thread_none_tests(fn: ast.AST) -> bool:
+    """after a helper with an early `return None` was expanded in assign mode:
+         if C: _ret__h = None            if C: T = None; EXIT
+         else: BODY; _ret__h = X   ==>   else: BODY; T = X; [if T is None: EXIT]; REST
+         T = _ret__h
+         if T is None: EXIT
+         REST
+    (EXIT ends in return / raise / break / continue).  The branch that produced None goes straight to EXIT, so that
+    statement-level rules do not see a path from the None branch into REST.  Rewrites in place."""
+    changed = False
+
+    def visit(block: List[ast.stmt]) -> None:
+        nonlocal changed
+        i = 0
+        while i < len(block):
+            st = block[i]
+            if isinstance(st, ast.If) and st.orelse and i + 2 < len(block) + 0:
+                a1 = block[i + 1] if i + 1 < len(block) else None
+                t1 = block[i + 2] if i + 2 < len(block) else None
+                if isinstance(a1, ast.Assign) and len(a1.targets) == 1 and isinstance(a1.targets[0], ast.Name) and isinstance(a1.value, ast.Name) and a1.value.id.startswith("_ret__") \
+                        and isinstance(t1, ast.If) and not t1.orelse and _terminates(t1.body) and ast.unparse(t1.test) in (f"{a1.targets[0].id} is None", f"not {a1.targets[0].id}"):
+                    tmp, tgt = a1.value.id, a1.targets[0].id
+                    rest = block[i + 3:]
+
+                    def finish(branch: List[ast.stmt]) -> Optional[List[ast.stmt]]:
+                        # the branch ends by assigning the temporary (possibly inside nested if / else)
+                        if not branch:
+                            return None
+                        last = branch[-1]
+                        if isinstance(last, ast.Assign) and len(last.targets) == 1 and isinstance(last.targets[0], ast.Name) and last.targets[0].id == tmp:
+                            val = last.value
+                            head = branch[:-1] + [ast.copy_location(ast.Assign([ast.Name(tgt, ast.Store())], val), last)]
+                            if isinstance(val, ast.Constant) and val.value is None:
+                                return head + copy.deepcopy(t1.body)
+                            if isinstance(val, ast.Call) and isinstance(val.func, ast.Name) and val.func.id[:1].isupper():
+                                return head + copy.deepcopy(rest)          # a constructed object is not None
+                            return head + [copy.deepcopy(t1)] + copy.deepcopy(rest)
+                        if isinstance(last, ast.If) and last.orelse:
+                            b_, e_ = finish(list(last.body)), finish(list(last.orelse))
+                            if b_ is None or e_ is None:
+                                return None
+                            return branch[:-1] + [ast.copy_location(ast.If(last.test, b_, e_), last)]
+                        if isinstance(last, ast.Raise):
+                            return branch
+                        return None
+
+                    nb, ne = finish(list(st.body)), finish(list(st.orelse))
+                    if nb is not None and ne is not None and not any(isinstance(x, ast.Name) and x.id == tmp for s_ in rest + t1.body for x in ast.walk(s_)):
+                        new_if = ast.copy_location(ast.If(st.test, nb, ne), st)
+                        ast.fix_missing_locations(new_if)
+                        block[i:] = [new_if]
+                        changed = True
+                        visit(new_if.body)
+                        visit(new_if.orelse)
+                        return
+            for fld in ("body", "orelse", "finalbody"):
+                sub = getattr(st, fld, None)
+                if isinstance(sub, list) and sub and isinstance(sub[0], ast.stmt) and not isinstance(st, (ast.FunctionDef, ast.AsyncFunctionDef, ast.ClassDef)):
+                    visit(sub)
+            if isinstance(st, ast.Try):
+                for h in st.handlers:
+                    visit(h.body)
+            i += 1
+
+    visit(fn.body)
+    return changed
+
+
+def _thin_generators(mod) -> Dict[str, Tuple[str, List[str]]]:
+    """single-record readers R that a generator G of the module wraps one to one:
+    `def G(a, b): while True: v = R(a, b); if v is None: return; yield v`  ->  {R: (G, [a, b])}.
+    Elsewhere `R(x, y)` is then `next(G(x, y), None)`, the form the rules know a record to be taken in."""
+    out: Dict[str, Tuple[str, List[str]]] = {}
+    for q, nodes in mod.defs.items():
+        if "." in q or len(nodes) != 1 or not isinstance(nodes[0], ast.FunctionDef):
+            continue
+        g = nodes[0]
+        body = list(g.body)
+        if body and isinstance(body[0], ast.Expr) and isinstance(body[0].value, ast.Constant) and isinstance(body[0].value.value, str):
+            body = body[1:]
+        if len(body) != 1 or not isinstance(body[0], ast.While) or not (isinstance(body[0].test, ast.Constant) and body[0].test.value is True) or body[0].orelse:
+            continue
+        lb = body[0].body
+        if len(lb) != 3:
+            continue
+        a, t, y = lb
+        params = [p.arg for p in g.args.args]
+        if not (isinstance(a, ast.Assign) and len(a.targets) == 1 and isinstance(a.targets[0], ast.Name) and isinstance(a.value, ast.Call) and isinstance(a.value.func, ast.Name)
+                and not a.value.keywords and [ast.unparse(x) for x in a.value.args] == params):
+            continue
+        v = a.targets[0].id
+        if not (isinstance(t, ast.If) and not t.orelse and len(t.body) == 1 and isinstance(t.body[0], ast.Return) and t.body[0].value is None
+                and ast.unparse(t.test) in (f"{v} is None", f"not {v}")):
+            continue
+        if not (isinstance(y, ast.Expr) and isinstance(y.value, ast.Yield) and isinstance(y.value.value, ast.Name) and y.value.value.id == v):
+            continue
+        r = a.value.func.id
+        if r in mod.defs and len(mod.defs[r]) == 1 and isinstance(mod.defs[r][0], ast.FunctionDef):
+            out[r] = (q, params)
+    return out
+
+
+class _ReaderAsNext(ast.NodeTransformer):
+    def __init__(self, table: Dict[str, Tuple[str, List[str]]]):
+        self.table = table
+        self.changed = False
+
+    def visit_Call(self, n: ast.Call):
+        self.generic_visit(n)
+        if isinstance(n.func, ast.Name) and n.func.id in self.table and not n.keywords and len(n.args) == len(self.table[n.func.id][1]):
+            self.changed = True
+            g = ast.Call(ast.Name(self.table[n.func.id][0], ast.Load()), list(n.args), [])
+            return ast.copy_location(ast.Call(ast.Name("next", ast.Load()), [g, ast.Constant(None)], []), n)
+        return n
+
+
 class Expander:
     def __init__(self, mod):
         self.mod = mod
@@ -494,19 +624,24 @@ class Expander:
         ret_expr: Optional[ast.AST] = None
         if mode != "return":
             last = body[-1] if body else None
-            if isinstance(last, ast.Return):
-                if any(r is not last for r in returns):
-                    return None
+            if isinstance(last, ast.Return) and not any(r is not last for r in returns):
                 ret_expr = last.value
                 body = body[:-1]
             elif returns:
-                # early bare returns that end `if` branches: restructured into if / else
-                if mode != "expr":
+                # early returns that end `if` branches: restructured into if / else (with the value assigned in assign mode)
+                if mode == "assign" and target is not None and len(target) == 1 and isinstance(target[0], ast.Name):
+                    restructured = _structure_early_returns(copy.deepcopy(body), ast.Name(f"_ret__{h.name.strip('_')}", ast.Store()))
+                    if restructured is None or any(isinstance(x, ast.Return) for s_ in restructured for x in ast.walk(s_)):
+                        return None
+                    body = restructured
+                    ret_expr = ast.Name(f"_ret__{h.name.strip('_')}", ast.Load())
+                elif mode != "expr":
                     return None
-                restructured = _structure_early_returns(copy.deepcopy(body))
-                if restructured is None or any(isinstance(x, ast.Return) for s_ in restructured for x in ast.walk(s_)):
-                    return None
-                body = restructured
+                else:
+                    restructured = _structure_early_returns(copy.deepcopy(body))
+                    if restructured is None or any(isinstance(x, ast.Return) for s_ in restructured for x in ast.walk(s_)):
+                        return None
+                    body = restructured
             if mode == "assign" and ret_expr is None:
                 ret_expr = ast.Constant(None)
         assigned = _assigned_names(h)
@@ -754,6 +889,20 @@ class Expander:
         cls = qual.rsplit(".", 1)[0] if "." in qual else None
         if cls is not None and cls not in self.mod.defs:
             cls = None
+        # a single-record reader called outside the generator that wraps it: written as next(<generator>(..), None)
+        thin = getattr(self, "_thin", None)
+        if thin is None:
+            thin = self._thin = _thin_generators(self.mod)
+        if thin and qual not in thin and qual not in {g for g, _ in thin.values()} and any(
+                isinstance(c, ast.Call) and isinstance(c.func, ast.Name) and c.func.id in thin for c in ast.walk(fn)):
+            cp = copy.deepcopy(fn)
+            tr = _ReaderAsNext(thin)
+            cp = tr.visit(cp)
+            if tr.changed:
+                ast.fix_missing_locations(cp)
+                cp._vt_qual = qual
+                cp._vt_origin = fn
+                fn = result = cp
         # quick exit: no call to an unknown unit anywhere
         if self._has_candidate(fn, cls, qual):
             work = copy.deepcopy(fn)
@@ -774,6 +923,8 @@ class Expander:
                         ast.fix_missing_locations(work)
                 work.body = self._block(work.body, cls, names, (qual,), changed)
                 self._locals = {}
+                if changed[0] and any(isinstance(n_, ast.Name) and n_.id.startswith("_ret__") for n_ in ast.walk(work)):
+                    thread_none_tests(work)
                 if not changed[0]:
                     break
                 any_change = True
